@@ -397,6 +397,12 @@ func TestRun(t *testing.T) {
 		bubble(t, []caseT{c})
 		return
 	}
+	if common.Batch == 0 {
+		parallelOwners()
+	}
+	if os.Getenv("VERIF_MODE") == "race" {
+		return // under the race detector only the owners family runs: everything else is single-goroutine
+	}
 	bigCases(t)
 	orders := []string{"int", "rev", "str", "mod", "ptr", "iface", "pct", "f64", "ibytes"}
 	// ---- exhaustive: all histories over 3 keys
